@@ -667,6 +667,7 @@ class Run:
         self.puppets: list[Puppet] = []
         self.nscopes = 0
         self.armed = False
+        self.late_level = False
         self.captured: list = []
         self.loggers: dict[int, logging.Logger] = {}
         self.desync: str | None = None
@@ -677,7 +678,10 @@ class Run:
 
     def logger(self, k: int) -> logging.Logger:
         if k not in self.loggers:
-            lg = logging.Logger(f"L{k}", level=logging.DEBUG)       # stand-alone: no parent, no propagation
+            # stand-alone: no parent, no propagation; in a `late_level` run the loggers are quiet (WARNING) while scopes are
+            # built / entered / left and opened up (DEBUG) only around each log call: what a logger lets through is decided
+            # by its level at the time of the call, not at the time the scope was made
+            lg = logging.Logger(f"L{k}", level=logging.WARNING if getattr(self, "late_level", False) else logging.DEBUG)
             lg.addHandler(Capture(self, f"L{k}"))
             self.loggers[k] = lg
         return self.loggers[k]
@@ -851,6 +855,10 @@ class Puppet:
                 exc_obj = Boom("logged") if ev.exc else None
                 run.captured = []
                 run.armed = True
+                if run.late_level:
+                    for lg in [logging.getLogger(), *run.loggers.values()]:
+                        lg.setLevel(logging.DEBUG)
+                        lg._cache.clear()      # a stand-alone Logger is not in the manager's dict: setLevel does not reach its cache
                 try:
                     fn = {"d": ctx.log_debug, "i": ctx.log_info, "w": ctx.log_warning, "e": ctx.log_error}[ev.level]
                     if ev.level == "i":
@@ -863,6 +871,10 @@ class Puppet:
                     run.note(f"log-raised:{type(exc).__name__}")
                 finally:
                     run.armed = False
+                    if run.late_level:
+                        for lg in [logging.getLogger(), *run.loggers.values()]:
+                            lg.setLevel(logging.WARNING)
+                            lg._cache.clear()
                 def exc_flag(ei):
                     has = ei is not None and ei[0] is not None
                     if exc_obj is None:
@@ -921,7 +933,9 @@ def run_case(case: str):
     cap = Capture(run, "root")
     old_level, old_raise, old_hook = root.level, logging.raiseExceptions, sys.unraisablehook
     root.addHandler(cap)
-    root.setLevel(logging.DEBUG)
+    import zlib
+    run.late_level = zlib.crc32(case.encode()) % 2 == 1      # half of the cases (a function of the case text: replays agree)
+    root.setLevel(logging.WARNING if run.late_level else logging.DEBUG)
     logging.raiseExceptions = False
     sys.unraisablehook = lambda *_: None
     loop.set_exception_handler(lambda _l, ctxt: run.notes.setdefault(run.k, []).append(
